@@ -268,3 +268,100 @@ def rule_annotsync(ctx, prop: str) -> RuleResult:
                 res.add(Finding("ANNOTSYNC", S, n.lineno, qn, "construct-idx-type", f"{qn} builds a window expression whose type does not record the same `idx` (`{ast.unparse(idx_e)[:40]}`)"))
     res.floor = 8
     return res
+
+
+def rule_readkinds(ctx, prop: str) -> RuleResult:
+    """`_replace_reads` matches `buf[_]`, i.e. BOTH point reads (LoopIR.Read) and window
+    expressions (LoopIR.WindowExpr) of the buffer.  A read-rewriting callback (`mk_read`)
+    that returns a replacement for one kind must not silently return nothing for the other
+    kind under the same circumstances: it handles it, or it raises.  Decided by
+    enumerating the callback's paths for kind = Read and kind = WindowExpr under every
+    assignment of its other (kind-independent) conditions and comparing the outcomes
+    replace / none / raise."""
+    import itertools
+
+    from ..boolform import atoms as bf_atoms, ev as bf_ev, to_form
+
+    ix = ctx.ix
+    res = RuleResult("READKINDS")
+    m = ix.module(S)
+    n_cb = 0
+    for qn, f in m.funcs.items():
+        if not isinstance(f.node, ast.FunctionDef) or not f.node.name.startswith("mk_read"):
+            continue
+        # subject of the kind tests
+        subj = None
+        for n in f.body_nodes():
+            if isinstance(n, ast.Call) and last_name(n) == "isinstance" and len(n.args) == 2 and ast.unparse(n.args[1]) in ("LoopIR.Read", "LoopIR.WindowExpr"):
+                subj = ast.unparse(n.args[0])
+        if subj is None:
+            continue  # handles both kinds uniformly
+        n_cb += 1
+        res.instances += 1
+        res.nontrivial += 1
+        res.analysed.append(f"{S}:{qn}")
+        kind_atom = {f"isinstance({subj}, LoopIR.Read)": "Read", f"isinstance({subj}, LoopIR.WindowExpr)": "WindowExpr"}
+
+        unknown: List[str] = []
+
+        def collect(stmts):
+            for st in stmts:
+                if isinstance(st, ast.If):
+                    for a in bf_atoms(to_form(st.test)):
+                        if a not in kind_atom and a not in unknown:
+                            unknown.append(a)
+                    collect(st.body)
+                    collect(st.orelse)
+                elif isinstance(st, (ast.For, ast.While, ast.With, ast.Try)):
+                    collect(getattr(st, "body", []))
+
+        collect(f.node.body)
+        if len(unknown) > 10:
+            raise AnalysisError(f"READKINDS: {qn} has too many independent conditions ({len(unknown)})")
+
+        def run(stmts, env) -> Optional[str]:
+            for st in stmts:
+                if isinstance(st, ast.Return):
+                    v = st.value
+                    return "none" if v is None or (isinstance(v, ast.Constant) and v.value is None) else "replace"
+                if isinstance(st, ast.Raise):
+                    return "raise"
+                if isinstance(st, ast.If):
+                    r = run(st.body if bf_ev(to_form(st.test), env) else st.orelse, env)
+                    if r is not None:
+                        return r
+                elif isinstance(st, (ast.For, ast.While, ast.With)):
+                    # a return inside a loop may or may not be reached: do not decide on it
+                    pass
+            return None
+
+        bad = None
+        for vals in itertools.product((False, True), repeat=len(unknown)):
+            outs = {}
+            for kind in ("Read", "WindowExpr"):
+                env = dict(zip(unknown, vals))
+                for a, k in kind_atom.items():
+                    env[a] = k == kind
+                try:
+                    outs[kind] = run(f.node.body, env) or "none"
+                except KeyError:
+                    outs[kind] = "?"
+            if {outs["Read"], outs["WindowExpr"]} == {"replace", "none"}:
+                bad = (dict(zip(unknown, vals)), outs)
+                break
+        ok = bad is None
+        res.ob(ok)
+        res.sample(f"{qn}: Read and WindowExpr are both rewritten, both left alone, or rejected under the same conditions: {ok}")
+        if not ok:
+            env, outs = bad
+            lost = "WindowExpr" if outs["WindowExpr"] == "none" else "Read"
+            cond = ", ".join(f"{k}={v}" for k, v in env.items() if v) or "no other condition"
+            res.add(
+                Finding("READKINDS", S, f.lineno, qn, f"{lost}-left-alone",
+                        f"{qn} rewrites a {'Read' if lost == 'WindowExpr' else 'WindowExpr'} of the buffer but returns nothing for a {lost} of it under the same conditions ({cond}): "
+                        f"the access is silently left as it was while the buffer's declaration and the other accesses change (w = a[i, 0:m] stays after transpose; the procedure computes on the wrong elements)")
+            )
+    if n_cb < 6:
+        raise AnalysisError(f"READKINDS: expected >= 6 kind-dispatching mk_read callbacks, found {n_cb}")
+    res.floor = 6
+    return res
